@@ -57,6 +57,10 @@ func hasStringer(t types.Type) bool {
 	return false
 }
 
+// named types (package path + "." + name) whose String / Error / GoString / Format method has a sink that receives a
+// secret: found by iterating the inventory to a fixed point
+var tainted = map[string]bool{}
+
 type ctx struct {
 	bytesArgs, ifaceArgs []string
 }
@@ -79,6 +83,9 @@ func describe(t types.Type, depth int) string {
 			return describe(x.Underlying(), depth+1)
 		}
 		if hasStringer(x) {
+			if tainted[obj.Pkg().Path()+"."+obj.Name()] {
+				return "JSecret" // rule 3b: its String/Error method formats a secret, so every sink given such a value prints it
+			}
 			return "JPublic" // rule 3
 		}
 		return describe(x.Underlying(), depth+1)
@@ -170,116 +177,153 @@ func main() {
 	var args []string // (site, jty) lines
 	var bytesArgs, ifaceArgs []string
 	total, sinks := 0, 0
-	for _, dir := range dirs {
-		pkgs, err := parser.ParseDir(fset, dir, func(fi os.FileInfo) bool { return !strings.HasSuffix(fi.Name(), "_test.go") }, parser.ParseComments)
-		if err != nil || len(pkgs) == 0 {
-			continue
-		}
-		rel, _ := filepath.Rel(*repo, dir)
-		for _, p := range pkgs {
-			var files []*ast.File
-			var names []string
-			for fn := range p.Files {
-				names = append(names, fn)
+	type rec struct {
+		site    string
+		t       types.Type
+		recvKey string
+	}
+	var recs []rec
+	grew := false
+	{
+		for _, dir := range dirs {
+			pkgs, err := parser.ParseDir(fset, dir, func(fi os.FileInfo) bool { return !strings.HasSuffix(fi.Name(), "_test.go") }, parser.ParseComments)
+			if err != nil || len(pkgs) == 0 {
+				continue
 			}
-			sort.Strings(names)
-			for _, fn := range names {
-				f := p.Files[fn]
-				tagged := false
-				for _, cg := range f.Comments {
-					for _, c := range cg.List {
-						if strings.HasPrefix(c.Text, "//go:build") && strings.Contains(c.Text, "verif") {
-							tagged = true
+			rel, _ := filepath.Rel(*repo, dir)
+			for _, p := range pkgs {
+				var files []*ast.File
+				var names []string
+				for fn := range p.Files {
+					names = append(names, fn)
+				}
+				sort.Strings(names)
+				for _, fn := range names {
+					f := p.Files[fn]
+					tagged := false
+					for _, cg := range f.Comments {
+						for _, c := range cg.List {
+							if strings.HasPrefix(c.Text, "//go:build") && strings.Contains(c.Text, "verif") {
+								tagged = true
+							}
 						}
+					}
+					if !tagged || strings.HasSuffix(fn, "_off.go") {
+						files = append(files, f)
 					}
 				}
-				if !tagged || strings.HasSuffix(fn, "_off.go") {
-					files = append(files, f)
+				info := &types.Info{Types: map[ast.Expr]types.TypeAndValue{}, Uses: map[*ast.Ident]types.Object{}, Selections: map[*ast.SelectorExpr]*types.Selection{}}
+				conf := types.Config{Importer: imp, Error: func(err error) {}}
+				ipath := modPath
+				if rel != "." {
+					ipath = modPath + "/" + rel
 				}
-			}
-			info := &types.Info{Types: map[ast.Expr]types.TypeAndValue{}, Uses: map[*ast.Ident]types.Object{}, Selections: map[*ast.SelectorExpr]*types.Selection{}}
-			conf := types.Config{Importer: imp, Error: func(err error) {}}
-			ipath := modPath
-			if rel != "." {
-				ipath = modPath + "/" + rel
-			}
-			if pkg, _ := conf.Check(ipath, fset, files, info); pkg == nil {
-				fmt.Fprintln(os.Stderr, "type check failed for", dir)
-				os.Exit(2)
-			}
-			for _, f := range files {
-				fname, _ := filepath.Rel(*repo, fset.Position(f.Pos()).Filename)
-				for _, d := range f.Decls {
-					fd, ok := d.(*ast.FuncDecl)
-					if !ok || fd.Body == nil {
-						continue
-					}
-					fn := fd.Name.Name
-					if fd.Recv != nil && len(fd.Recv.List) > 0 {
-						fn = types.ExprString(fd.Recv.List[0].Type) + "." + fn
-						fn = strings.TrimPrefix(fn, "*")
-					}
-					ast.Inspect(fd.Body, func(n ast.Node) bool {
-						call, ok := n.(*ast.CallExpr)
-						if !ok {
-							return true
+				if pkg, _ := conf.Check(ipath, fset, files, info); pkg == nil {
+					fmt.Fprintln(os.Stderr, "type check failed for", dir)
+					os.Exit(2)
+				}
+				for _, f := range files {
+					fname, _ := filepath.Rel(*repo, fset.Position(f.Pos()).Filename)
+					for _, d := range f.Decls {
+						fd, ok := d.(*ast.FuncDecl)
+						if !ok || fd.Body == nil {
+							continue
 						}
-						tv, ok := info.Types[call.Fun]
-						if !ok || tv.IsType() {
-							return true
-						}
-						sig, ok := tv.Type.Underlying().(*types.Signature)
-						if !ok || !sig.Variadic() {
-							return true
-						}
-						lastSl, ok := sig.Params().At(sig.Params().Len() - 1).Type().(*types.Slice)
-						if !ok {
-							return true
-						}
-						last := lastSl.Elem()
-						if it, ok := last.Underlying().(*types.Interface); !ok || it.NumMethods() != 0 {
-							return true
-						}
-						sinks++
-						if call.Ellipsis.IsValid() {
-							return true // rule 1: forwarding
-						}
-						callee := types.ExprString(call.Fun)
-						for i := sig.Params().Len() - 1; i < len(call.Args); i++ {
-							a := call.Args[i]
-							total++
-							at := info.Types[a].Type
-							site := fmt.Sprintf("%s:%s:%s:%s", fname, fn, callee, types.ExprString(a))
-							site = strings.ReplaceAll(site, "\"", "'")
-							if len(site) > 160 {
-								site = site[:160]
+						fn := fd.Name.Name
+						recvKey := ""
+						if fd.Recv != nil && len(fd.Recv.List) > 0 {
+							fn = types.ExprString(fd.Recv.List[0].Type) + "." + fn
+							fn = strings.TrimPrefix(fn, "*")
+							switch fd.Name.Name {
+							case "String", "Error", "GoString", "Format":
+								recvKey = ipath + "." + strings.TrimPrefix(types.ExprString(fd.Recv.List[0].Type), "*")
 							}
-							if secretExpr(a) {
-								args = append(args, fmt.Sprintf("(\"%s\", JSecret)", site))
-								continue
+						}
+						taint := func() {
+							if recvKey != "" && !tainted[recvKey] {
+								tainted[recvKey] = true
+								grew = true
 							}
-							if at == nil {
-								continue
+						}
+						ast.Inspect(fd.Body, func(n ast.Node) bool {
+							call, ok := n.(*ast.CallExpr)
+							if !ok {
+								return true
 							}
-							if isByteSeq(at) {
-								bytesArgs = append(bytesArgs, site)
-								continue
+							tv, ok := info.Types[call.Fun]
+							if !ok || tv.IsType() {
+								return true
 							}
-							if it, ok := at.Underlying().(*types.Interface); ok {
-								if at.String() != "error" && it.NumMethods() == 0 {
-									ifaceArgs = append(ifaceArgs, site)
+							sig, ok := tv.Type.Underlying().(*types.Signature)
+							if !ok || !sig.Variadic() {
+								return true
+							}
+							lastSl, ok := sig.Params().At(sig.Params().Len() - 1).Type().(*types.Slice)
+							if !ok {
+								return true
+							}
+							last := lastSl.Elem()
+							if it, ok := last.Underlying().(*types.Interface); !ok || it.NumMethods() != 0 {
+								return true
+							}
+							sinks++
+							if call.Ellipsis.IsValid() {
+								return true // rule 1: forwarding
+							}
+							callee := types.ExprString(call.Fun)
+							for i := sig.Params().Len() - 1; i < len(call.Args); i++ {
+								a := call.Args[i]
+								total++
+								at := info.Types[a].Type
+								site := fmt.Sprintf("%s:%s:%s:%s", fname, fn, callee, types.ExprString(a))
+								site = strings.ReplaceAll(site, "\"", "'")
+								if len(site) > 160 {
+									site = site[:160]
 								}
-								continue
+								if secretExpr(a) {
+									args = append(args, fmt.Sprintf("(\"%s\", JSecret)", site))
+									taint()
+									continue
+								}
+								if at == nil {
+									continue
+								}
+								if isByteSeq(at) {
+									bytesArgs = append(bytesArgs, site)
+									continue
+								}
+								if it, ok := at.Underlying().(*types.Interface); ok {
+									if at.String() != "error" && it.NumMethods() == 0 {
+										ifaceArgs = append(ifaceArgs, site)
+									}
+									continue
+								}
+								recs = append(recs, rec{site, at, recvKey})
 							}
-							d := describe(at, 0)
-							if d != "JPublic" {
-								args = append(args, fmt.Sprintf("(\"%s\", %s)", site, d))
-							}
-						}
-						return true
-					})
+							return true
+						})
+					}
 				}
 			}
+		}
+	}
+	// fixed point over the recorded arguments: a type becomes secret-printing when its String / Error / ... method
+	// hands a secret (or a value of an already tainted type) to a sink
+	for pass := 0; pass < 8; pass++ {
+		grew = false
+		for _, r := range recs {
+			if r.recvKey != "" && !tainted[r.recvKey] && strings.Contains(describe(r.t, 0), "JSecret") {
+				tainted[r.recvKey] = true
+				grew = true
+			}
+		}
+		if !grew {
+			break
+		}
+	}
+	for _, r := range recs {
+		if d := describe(r.t, 0); d != "JPublic" {
+			args = append(args, fmt.Sprintf("(\"%s\", %s)", r.site, d))
 		}
 	}
 	uniq := func(l []string) []string {
